@@ -539,16 +539,65 @@ C15t(pre, ev, post, aux) ==
     C("C15.TraceFileListsDispatchedEvents",
       (ev.op = "run_end" /\ cfg.trace) => [i \in DOMAIN ev.trace |-> <<ev.trace[i][1], ev.trace[i][2], ev.trace[i][3], ev.trace[i][4]>>] = aux.disp)
 
+(***************************************************************************)
+(* C19 on the floor: sensors attached to processors in lines with failures, *)
+(* blocked inputs and work orders (which the monitoring system requests)    *)
+(***************************************************************************)
+OutSensed == {d \in Procs : cfg.devs[d].sint >= 0}
+PerSensed == {d \in Procs : cfg.devs[d].pint > 0}
+SenseOcc(ev, kind, d, which) == Sel(ev.occ, LAMBDA o : o[1] = kind /\ o[2] = d /\ o[4] = which)
+IsPSenseOf(ev, d) == IsStep(ev) /\ ~ev.direct /\ ev.kind = "psense" /\ ~ev.cancelled /\ ev.arg = d
+CapOf(d) == IF cfg.devs[d].scap = None THEN 1000000 ELSE cfg.devs[d].scap
+C19(pre, ev, post, aux) ==
+    C("C19.FloorOutputSensorCadence",       \* the first finished part and then every (n+1)-th, the part's value at that moment
+      \A d \in OutSensed :
+         LET prods == Occ(ev, "prod", d)
+             ss == SenseOcc(ev, "sense", d, 0)
+             n0 == pre.cnt["produced_part"][d] IN
+         /\ (prods = <<>> => ss = <<>>)
+         /\ (Len(prods) = 1 => /\ Len(ss) = (IF n0 % (cfg.devs[d].sint + 1) = 0 THEN 1 ELSE 0)
+                                /\ \A i \in DOMAIN ss : ss[i][3] = 1 /\ ss[i][5] = prods[1][4] /\ ss[i][6] = post.now))
+    \cup C("C19.FloorPeriodicSensorExact",  \* the k-th measurement exactly k intervals after the start, a copy of the value then
+           \A d \in PerSensed :
+              LET ss == SenseOcc(ev, "sense", d, 1) IN
+              IF IsPSenseOf(ev, d)
+              THEN /\ post.now % cfg.devs[d].pint = 0 /\ post.dev[d].pn = post.now \div cfg.devs[d].pint
+                   /\ Len(ss) = 1 /\ ss[1][3] = 1 /\ ss[1][5] = pre.dev[d].damage /\ ss[1][6] = post.now
+              ELSE ss = <<>> /\ post.dev[d].pn = pre.dev[d].pn)
+    \cup C("C19.FloorPeriodicSensorNeverLate",
+           \A d \in PerSensed : post.inited =>
+              LET due == post.now \div cfg.devs[d].pint IN
+              IF post.now % cfg.devs[d].pint = 0 /\ ~Quiescent(post) THEN post.dev[d].pn \in {due - 1, due}
+              ELSE post.dev[d].pn = due)
+    \cup C("C19.FloorSeriesBoundedAndAligned",
+           \A d \in Procs :
+              /\ Len(post.dev[d].sdata) = Min(post.dev[d].sn, CapOf(d))
+              /\ Len(post.dev[d].pdata) = Min(post.dev[d].pn, CapOf(d))
+              /\ Len(post.dev[d].ptime) = Len(post.dev[d].pdata)
+              /\ \A i \in DOMAIN post.dev[d].ptime :
+                    post.dev[d].ptime[i] = (post.dev[d].pn - Len(post.dev[d].ptime) + i) * cfg.devs[d].pint)
+    \cup C("C19.FloorSeriesKeepsMostRecent",
+           \A d \in Procs :
+              LET so == SenseOcc(ev, "sense", d, 0)
+                  sp == SenseOcc(ev, "sense", d, 1) IN
+              /\ (Len(so) <= 1 => post.dev[d].sdata = KeepLast(pre.dev[d].sdata \o [i \in DOMAIN so |-> so[i][5]], CapOf(d)))
+              /\ (Len(sp) <= 1 => post.dev[d].pdata = KeepLast(pre.dev[d].pdata \o [i \in DOMAIN sp |-> sp[i][5]], CapOf(d)))
+              /\ post.dev[d].sn = pre.dev[d].sn + Len(so))
+    \cup C("C19.FloorMonitorReceivesEachOnceInOrder",   \* callbacks in registration order: the observer's, then the monitoring system's
+           \A i \in DOMAIN ev.occ :
+              /\ (ev.occ[i][1] = "sense" => i < Len(ev.occ) /\ ev.occ[i + 1] = [ev.occ[i] EXCEPT ![1] = "cms"])
+              /\ (ev.occ[i][1] = "cms" => i > 1 /\ ev.occ[i - 1] = [ev.occ[i] EXCEPT ![1] = "sense"]))
+
 (* the clauses that do not need the recorded datapoints (ev.recs, ev.vh): checked on the closed      *)
 (* specification as well as on recorded runs                                                        *)
 DesignClauses(pre, ev, post, aux) ==
     C02(pre, ev, post, aux) \cup C03(pre, ev, post, aux) \cup C04(pre, ev, post, aux) \cup C05(pre, ev, post, aux)
     \cup C06(pre, ev, post, aux) \cup C08(pre, ev, post, aux) \cup C11(pre, ev, post, aux) \cup C13d(pre, ev, post, aux)
-    \cup C17(pre, ev, post, aux)
+    \cup C17(pre, ev, post, aux) \cup C19(pre, ev, post, aux)
 
 ObsClauses(pre, ev, post, aux, jpost, jpre) ==
     C01(pre, ev, post, aux) \cup C15t(pre, ev, post, aux) \cup C08(pre, ev, post, aux) \cup C17(pre, ev, post, aux) \cup
     C02(pre, ev, post, aux) \cup C03(pre, ev, post, aux) \cup C04(pre, ev, post, aux) \cup C05(pre, ev, post, aux)
     \cup C06(pre, ev, post, aux) \cup C11(pre, ev, post, aux) \cup C13(pre, ev, post, aux) \cup C15(pre, ev, post, aux)
-    \cup C16(pre, ev, post, aux, jpost)
+    \cup C16(pre, ev, post, aux, jpost) \cup C19(pre, ev, post, aux)
 =============================================================================
